@@ -27,7 +27,10 @@ RULE = ('state = (table, wrapper, arguments, target kind, pass pattern). Tables:
         'of every length 0..width+1 (ragged, empty, over-long), header-only tables; rows given as tuples or lists; '
         'header fields that are not text (int, float, None, bool): the header must come through type-faithfully too. '
         'tee*: every table x write_header / encoding / dialect / template, prologue, epilogue / caption, '
-        'index_header, truncate, lineterminator, tr_style, td_styles / pickle protocol; target kinds: all four for the '
+        'index_header, truncate, lineterminator, tr_style, td_styles / pickle protocol; errors= axis for teecsv, '
+        'teetsv, teetext, teehtml: encoding in {ascii, latin-1} x errors in {strict, replace, ignore, xmlcharrefreplace, '
+        'backslashreplace} x tables (<= 2 rows) whose cells / header / prologue / caption hold text the codec cannot '
+        'encode (strict: encodable text only); target kinds: all four for the '
         'plain configurations (encoding x write_header, default template), MemorySource (+ .gz in thorough) for the '
         'rest; two complete passes, and on MemorySource every abandoned pass followed by a complete one (quick: '
         'plain configurations only). progress/log_progress x '
@@ -113,6 +116,41 @@ def tables(seed, tier):
     # header fields that are not text: the wrapper must hand on the wrapped table's header objects
     for h in nontext_headers(seed):
         out += [(h,), (h, (C[1], C[2])), (h, (C[3],), (None, C[4], 'L')), (h, (), (C[2], C[2]))]
+    return out
+
+
+ERRORS = ['strict', 'replace', 'ignore', 'xmlcharrefreplace', 'backslashreplace']
+
+
+def error_tables(seed):
+    """Tables for the errors= axis: cells ascii cannot encode (a latin-1 letter) and cells latin-1 cannot encode
+    either (euro sign, U+2028), next to encodable text and None; every row length 0..3; also in the header."""
+    r = spaces.reps(seed)
+    na = ['\xe9', '\xfc', '\xf1', '\xf8'][seed % 4]
+    f = ['x', 'y', 'z', 'w'][seed % 4]
+    E = [na, '\u20ac', r['s1'] + '\u2028' + na, r['s1'], None]
+    hdr = (f, 'k')
+    rows = [()] + [(c,) for c in E] + [(a, b) for a in E for b in E] + [(c, E[1], 'L') for c in E]
+    out = [(hdr,)] + [(hdr, r1) for r1 in rows] + [(hdr, r1, r2) for r1 in rows for r2 in rows]
+    for h in [(na, 'k'), (f, '\u20ac'), ('\u20ac' + na,)]:
+        out += [(h,), (h, (E[3], E[3])), (h, (E[0],), (E[1], E[2], 'L'))]
+    return out
+
+
+def errors_cfgs(tier, hdr):
+    """encoding in {ascii, latin-1} x errors in all five handlers, for every tee*/to* pair that accepts errors=."""
+    usable = [str(h) for h in hdr if str(h).isidentifier()]
+    tpl = ''.join('{%s}|' % n for n in usable) + '\n'
+    out = []
+    for enc in ('ascii', 'latin-1'):
+        for err in ERRORS:
+            out.append(('teecsv', {'encoding': enc, 'errors': err}))
+            out.append(('teetsv', {'encoding': enc, 'errors': err}))
+            out.append(('teetext', {'encoding': enc, 'errors': err, 'template': tpl, 'prologue': 'P\u20ac\n',
+                                    'epilogue': 'E'}))
+            out.append(('teehtml', {'encoding': enc, 'errors': err, 'caption': 'c\u20ac'}))
+    out.append(('teecsv', {'encoding': 'ascii', 'errors': 'replace', 'write_header': False, 'delimiter': ';',
+                           'quotechar': "'", 'quoting': 1}))
     return out
 
 
@@ -352,12 +390,15 @@ def replay(case):
 
 def setup(tier, seed):
     _G.clear()
-    _G.update({'tier': tier, 'seed': seed, 'tables': tables(seed, tier), 'pass': pass_tables(seed)})
+    _G.update({'tier': tier, 'seed': seed, 'tables': tables(seed, tier), 'pass': pass_tables(seed),
+               'etables': error_tables(seed)})
 
 
 def bounds(tier, seed):
     T = _G['tables']
     return {'tee_tables': len(T), 'pass_tables': len(_G['pass']), 'max_data_rows': 3,
+            'errors_axis_tables': len(_G['etables']), 'errors_axis_configurations': len(errors_cfgs(tier, ('x', 'k'))),
+            'errors_handlers': ERRORS, 'errors_encodings': ['ascii', 'latin-1'],
             'csv_configurations': len(csv_cfgs(tier)), 'text_configurations': len(text_cfgs(tier, ('x', 'k'))),
             'html_configurations': len(html_cfgs(tier)), 'pickle_configurations': len(pickle_cfgs(tier)),
             'target_kinds': KINDS, 'progress_batchsizes': '1, 2, n, n+1, 1000',
@@ -391,6 +432,7 @@ def items(tier, seed):
            {'csv': 60, 'text': 120, 'html': 40, 'pickle': 250}
     for fam in ('csv', 'text', 'html', 'pickle'):
         out += [('tee', fam, lo, hi) for lo, hi in _slices(n, size[fam])]
+    out += [('tee', 'errors', lo, hi) for lo, hi in _slices(len(_G['etables']), 40)]
     out += [('pass', lo, hi) for lo, hi in _slices(len(_G['pass']), 8)]
     out += [('cache', lo, hi) for lo, hi in _slices(len(_G['pass']), 4)]
     return spaces.rotate(out, seed * 5)
@@ -398,7 +440,7 @@ def items(tier, seed):
 
 def cost(item):
     if item[0] == 'tee':
-        return {'csv': 6, 'html': 6, 'text': 4, 'pickle': 3}[item[1]]
+        return {'csv': 6, 'html': 6, 'text': 4, 'pickle': 3, 'errors': 5}[item[1]]
     return 2 if item[0] == 'cache' else 1
 
 
@@ -418,18 +460,25 @@ def _mark_allkinds(cfgs, tier):
     return out
 
 
-def _encodable(table, enc):
-    if enc in (None, 'utf-8', 'utf-16'):
+def _encodable(table, kw):
+    """Under errors='strict' (the default) only text the codec can encode is in the domain (to* raises
+    otherwise); with any other handler every text is."""
+    enc = kw.get('encoding')
+    if enc in (None, 'utf-8', 'utf-16') or kw.get('errors', 'strict') != 'strict':
         return True
-    return ref.encodable(table, enc)
+    extra = [(kw.get(k),) for k in ('prologue', 'epilogue', 'caption') if kw.get(k) is not None]
+    return ref.encodable(list(table) + extra, enc)
 
 
 def _run_tee(acc, fam, lo, hi):
     tier = _G['tier']
-    for table in _G['tables'][lo:hi]:
+    pool = _G['etables'] if fam == 'errors' else _G['tables']
+    for table in pool[lo:hi]:
         hdr = table[0]
         nrows = len(table)
-        if fam == 'csv':
+        if fam == 'errors':
+            cfgs = errors_cfgs(tier, hdr)
+        elif fam == 'csv':
             cfgs = csv_cfgs(tier)
         elif fam == 'text':
             cfgs = text_cfgs(tier, hdr)
@@ -438,7 +487,7 @@ def _run_tee(acc, fam, lo, hi):
         else:
             cfgs = pickle_cfgs(tier)
         for op, kw, allkinds in _mark_allkinds(cfgs, tier):
-            if not _encodable(table, kw.get('encoding')):
+            if not _encodable(table, kw):
                 acc.counters['excluded:not encodable'] += 1
                 continue
             for kind in (KINDS if allkinds else (['mem'] if tier == 'quick' else ['mem', 'gz'])):
@@ -466,7 +515,7 @@ def _run_tee(acc, fam, lo, hi):
                                       '%s(%r, <%s>, **%r), passes %r (None = complete, k = abandoned after k items)'
                                       % (op, table, kind, kw, pattern))
         acc.outcome(('tee', fam, nrows, repr(table[-1])[:30]))
-    acc.sample({'part': 'tee', 'family': fam, 'table': _G['tables'][lo]}, 1)
+    acc.sample({'part': 'tee', 'family': fam, 'table': pool[lo]}, 1)
 
 
 def _patterns(nrows, maxpasses):
